@@ -769,6 +769,14 @@ class Session:
 
                 r = random.Random(key_n)
                 pick = [a for a in free if r.random() < 0.5][:3] or [free[0]]
+                # mutually prefix-free, also on static parts (a bare-distribution
+                # branch next to a structured branch at the same address)
+                sp_ = {a: static_part(a) for a in pick}
+                pick = [
+                    a
+                    for a in pick
+                    if not any(b != a and (b[: len(a)] == a or (sp_[b] != sp_[a] and sp_[b][: len(sp_[a])] == sp_[a])) for b in pick)
+                ]
                 for a in pick:
                     leaf = self.cons[a]
                     junk = leaf_to_jax(leaf, _junk_value(leaf))
